@@ -9,7 +9,7 @@ PROP = {
     "rule": "cases = 1-3 files: mutated corpus snippets, verbatim corpus, 37 adversarial annotation shapes (recursive/mutual aliases, cyclic and self inheritance, self-referential generics, unknown supers, operators, overloads, variadics, casts …) optionally mutated, annotation soup, spliced files; x 6 language levels x 32 strictness configs, all diagnostic codes enabled; "
             "distinct = hash of (file names, texts, config); non-trivial = >= 12 tokens and >= 1 expression were queried",
     "min_nontrivial": {"quick": 12000, "thorough": 400000},
-    "max_secs": {"quick": 600, "thorough": 1200},
+    "max_secs": {"quick": 600, "thorough": 1500},
     "abort_is_violation": True,
     "require_clauses": ["no-panic:index+diagnose+queries", "queries:semantic-info", "queries:find-decl", "queries:infer-expr", "queries:humanize", "diagnostics-produced", "family:adversarial", "family:corpus-mutant", "family:annot-soup"],
     "assumptions": COMMON_ASSUME + ["nesting depth of generated programs stays below the parser's nesting limit (deep nesting is C02's subject)", "CPU budget 30 s per case, confirmed by repetition"],
